@@ -21,9 +21,9 @@ def K(kind, bound, functions):
     return {'kind': kind, 'bound': bound, 'functions': functions}
 
 
-VIEW_QUICK = ['k_view_axis_views_2x3', 'k_view_axis_views_2x1', 'k_view_axis_iter_4', 'k_view_sum_3']
-VIEW_THOROUGH = ['k_view_axis_views_3', 'k_view_axis_views_2x3x2', 'k_view_axis_views_3x1x2', 'k_view_axis_views_2x1x2x3',
-                 'k_view_axis_iter_2x3x2', 'k_view_sum_2x3', 'k_view_sum_2x1x3']
+VIEW_QUICK = ['k_view_axis_views_3', 'k_view_axis_views_2x3x2', 'k_view_axis_iter_4']
+VIEW_THOROUGH = ['k_view_axis_views_2x3', 'k_view_axis_views_2x1', 'k_view_axis_views_3x1x2', 'k_view_axis_views_2x1x2x3',
+                 'k_view_axis_iter_2x3x2']
 INDEX_QUICK = ['k_index_bijection_2x3', 'k_index_bijection_1', 'k_index_iter_indices_1x3', 'k_index_get_2x3', 'k_index_get_2x3_len1', 'k_index_get_2x3_len3',
                'k_index_iter_indices_4']
 INDEX_THOROUGH = ['k_index_bijection_1x2x2', 'k_index_iter_indices_1x1x2', 'k_index_bijection_5', 'k_index_bijection_3x1', 'k_index_bijection_2x3x2', 'k_index_bijection_3x1x4',
@@ -32,8 +32,8 @@ INDEX_THOROUGH = ['k_index_bijection_1x2x2', 'k_index_iter_indices_1x1x2', 'k_in
                   'k_index_iter_indices_2x3', 'k_index_iter_indices_3x1x2', 'k_index_iter_indices_2x2x1x2']
 DECODERS = ['k_npy_decode_f4', 'k_npy_decode_f8', 'k_npy_decode_i1', 'k_npy_decode_i2', 'k_npy_decode_i4', 'k_npy_decode_i8',
             'k_npy_decode_u1', 'k_npy_decode_u2', 'k_npy_decode_u4', 'k_npy_decode_u8']
-FOLD_QUICK = ['k_fold_5', 'k_fold_2x4', 'k_fold_1x3']
-FOLD_THOROUGH = ['k_fold_1', 'k_fold_4', 'k_fold_3x4', 'k_fold_3x3', 'k_fold_2x3x2', 'k_fold_2x2x2', 'k_fold_3x1x1x2']
+FOLD_QUICK = ['k_fold_5', 'k_fold_4', 'k_fold_1x3']
+FOLD_THOROUGH = ['k_fold_1', 'k_fold_2x4', 'k_fold_3x4', 'k_fold_3x3', 'k_fold_2x3x2', 'k_fold_2x2x2', 'k_fold_3x1x1x2']
 SITE_NOPROJ = ['k_site_noproj_abn_c0', 'k_site_noproj_abn_c2', 'k_site_noproj_aab_c1', 'k_site_noproj_aab_c2', 'k_site_noproj_baa_c0', 'k_site_noproj_nba_c1']
 SITE_PROJDEC = ['k_site_projdec_aab_c0_to22', 'k_site_projdec_aab_c2_to42', 'k_site_projdec_aab_c1_to20', 'k_site_projdec_baa_c1_to02', 'k_site_projdec_nba_c0_to22']
 SITE_PROJVAL = ['k_site_projval_aab_to21', 'k_site_projval_baa_to12', 'k_site_projval_aab_to02']
@@ -66,7 +66,6 @@ KANI_META.update({
     'k_index_new_absurd_shape': K('complete', 'two axes, all usize lengths; data of 0 and 1 elements', ['Array::new']),
     'k_npy_decode_chunked_reader': K('bounded', 'stream of two big-endian i4 values (contents symbolic) through readers handing out 1 and 3 bytes per call', ['TypeDescriptor::read', 'get_read_fn']),
     'k_npy_header_write_short_writes': K('bounded', 'header of shape (3,) through sinks accepting 1, 3, 7 bytes per call (HeaderDict Display stubbed by its text)', ['Header::write', 'Version::write_header_len']),
-    'k_npy_header_write_failing_sink': K('bounded', 'sink failing at offsets 9 and 70', ['Header::write']),
     'k_npy_write_array_values_bit_exact': K('complete', 'shape (2,), both values over all 2^64 bit patterns (HeaderDict Display stubbed by its text)', ['npy::write_array', 'Header::write', 'Array::iter']),
     'k_fold_empty': K('bounded', 'shapes [0] and [2,0]', ['Spectrum::fold', 'Folded::from_spectrum']),
     'k_npy_f64_le_roundtrip': K('complete', 'none: all 2^64 bit patterns', ['f64::to_le_bytes', 'f64::from_le_bytes']),
@@ -76,12 +75,14 @@ KANI_META.update({
     'k_proj_validation_dimensions': K('complete', 'dimension pairs (2,1), (1,2); shapes with two axes over all usize', ['Projection::new', 'Projection::from_shapes', 'Count::try_from_shape']),
     'k_proj_wiring_4_to_3': K('bounded', 'shape [4] -> [3]', ['Spectrum::project', 'Projection::project_unchecked', 'Projected::add_unchecked', 'ProjectIter']),
     'k_proj_wiring_3x2_to_2x2': K('bounded', 'shape [3,2] -> [2,2]', ['Spectrum::project']),
-    'k_proj_wiring_2x3x2_to_2x2x1': K('bounded', 'shape [2,3,2] -> [2,2,1]', ['Spectrum::project']),
     'k_marg_errors': K('bounded', '9 concrete rejected axis lists (duplicates adjacent and not, out-of-range incl. usize::MAX, all axes) and 2 accepted ones on a 3-axis spectrum', ['Spectrum::marginalize (validation)']),
-    'k_marg_2x3': K('bounded', 'shape [2,3], each single axis', ['Spectrum::marginalize', 'marginalize_unchecked', 'marginalize_axis', 'Array::sum']),
-    'k_marg_2x3x2_single': K('bounded', 'shape [2,3,2], each single axis', ['Spectrum::marginalize']),
-    'k_marg_2x3x2_pairs_both_orders': K('bounded', 'shape [2,3,2], every pair of axes in both orders', ['Spectrum::marginalize']),
-    'k_marg_3x2x1x2_triples': K('bounded', 'shape [3,2,1,2], four axis lists incl. unsorted triples', ['Spectrum::marginalize']),
+    'k_marg_2x3_a0': K('bounded', 'shape [2,3], axis 0', ['Spectrum::marginalize', 'marginalize_unchecked', 'marginalize_axis', 'Array::sum']),
+    'k_marg_2x3_a1': K('bounded', 'shape [2,3], axis 1', ['Spectrum::marginalize', 'Array::sum']),
+    'k_marg_2x3x2_a1': K('bounded', 'shape [2,3,2], axis 1', ['Spectrum::marginalize']),
+    'k_marg_2x3x2_a20': K('bounded', 'shape [2,3,2], axes [2,0] (descending)', ['Spectrum::marginalize']),
+    'k_marg_2x3x2_a01': K('bounded', 'shape [2,3,2], axes [0,1] (adjacent)', ['Spectrum::marginalize']),
+    'k_marg_2x2x1x2_a302': K('bounded', 'shape [2,2,1,2], axes [3,0,2] (neither ascending nor descending)', ['Spectrum::marginalize']),
+    'k_marg_2x2x1x2_a132': K('bounded', 'shape [2,2,1,2], axes [1,3,2]', ['Spectrum::marginalize']),
     'k_stat_king_r0_r1_definition': K('bounded', '3 concrete asymmetric integer 3x3 tables', ['King/R0/R1::from_spectrum']),
     'k_stat_monomorphic_1d': K('bounded', 'shapes [4], [5]; monomorphic cells over all f64 bit patterns', ['Theta<Watterson/Tajima>', 'D<Tajima/FuLi>', 'Scs::segregating_sites']),
     'k_stat_monomorphic_2d': K('bounded', 'shapes [3,3], [2,4]; monomorphic cells over all f64 bit patterns', ['PiXY', 'King', 'R0', 'R1', 'Scs::segregating_sites']),
@@ -129,8 +130,8 @@ REGISTRY = {
         'level': 'model_checking',
         'verus': ['v_projiter'],
         'verus_pairs': {'v_projiter': ['k_proj_wiring_3x2_to_2x2']},
-        'kani_quick': ['k_proj_validation_2d', 'k_proj_validation_dimensions'],
-        'kani_thorough': ['k_proj_wiring_4_to_3', 'k_proj_wiring_3x2_to_2x2', 'k_proj_wiring_2x3x2_to_2x2x1'],
+        'kani_quick': ['k_proj_validation_2d', 'k_proj_validation_dimensions', 'k_proj_wiring_4_to_3'],
+        'kani_thorough': ['k_proj_wiring_3x2_to_2x2'],
         'assumptions': [A_PMF, A_FLOATSUM],
         'not_decided': ['that the coefficient equals the hypergeometric pmf; finiteness for thousands of chromosomes; mass preservation, identity, two-step, commutation laws (real-number identities of the pmf)'],
     },
@@ -138,9 +139,9 @@ REGISTRY = {
         'title': 'marginalization is the array sum over the removed axes',
         'level': 'proof',
         'verus': ['v_view', 'v_axisiter'],
-        'verus_pairs': {'v_view': ['k_view_axis_views_2x3'], 'v_axisiter': ['k_view_axis_views_2x3']},
-        'kani_quick': ['k_marg_errors', 'k_view_sum_3', 'k_view_axis_views_2x3'],
-        'kani_thorough': ['k_marg_2x3', 'k_marg_2x3x2_single', 'k_marg_2x3x2_pairs_both_orders', 'k_marg_3x2x1x2_triples', 'k_view_sum_2x3', 'k_view_sum_2x1x3'],
+        'verus_pairs': {'v_view': ['k_view_axis_views_2x3x2'], 'v_axisiter': ['k_view_axis_views_2x3x2']},
+        'kani_quick': ['k_marg_errors', 'k_marg_2x3_a0', 'k_view_axis_views_2x3x2'],
+        'kani_thorough': ['k_marg_2x3_a0', 'k_marg_2x3_a1', 'k_marg_2x3x2_a1', 'k_marg_2x3x2_a20', 'k_marg_2x3x2_a01', 'k_marg_2x2x1x2_a302', 'k_marg_2x2x1x2_a132'],
         'assumptions': [A_FLOATSUM, A_BIN, 'Array::sum / marginalize_unchecked (iterator adapters) are checked by Kani on the listed shapes only'],
         'not_decided': ['--marginalize-keep complement (View::run, bin crate)', 'create/marginalize relation on call sets'],
     },
@@ -148,7 +149,7 @@ REGISTRY = {
         'title': 'folding is mass-preserving, idempotent and symmetric under allele polarity',
         'level': 'proof',
         'verus': ['v_indexsum'],
-        'verus_pairs': {'v_indexsum': ['k_fold_2x4', 'k_fold_3x1x1x2']},
+        'verus_pairs': {'v_indexsum': ['k_fold_1x3', 'k_fold_3x1x1x2']},
         'kani_quick': FOLD_QUICK,
         'kani_thorough': FOLD_THOROUGH,
         'assumptions': [A_FLOATSUM, A_BIN, 'Shape::elements (iterator product) is assumed in V-indexsum and checked by K-index on concrete shapes',
@@ -242,9 +243,9 @@ REGISTRY = {
         'title': 'results do not depend on how the byte stream is chunked; I/O errors surface',
         'level': 'proof',
         'verus': ['v_npyhdr'],
-        'verus_pairs': {'v_npyhdr': ['k_npy_header_write_short_writes', 'k_npy_header_write_failing_sink']},
+        'verus_pairs': {'v_npyhdr': ['k_npy_header_write_short_writes', 'k_npy_write_array_values_bit_exact']},
         'kani_quick': ['k_detect_genotype_stream', 'k_npy_read_header_len'],
-        'kani_thorough': ['k_npy_decode_partial_value_is_error', 'k_npy_decode_chunked_reader', 'k_npy_header_write_short_writes', 'k_npy_header_write_failing_sink'],
+        'kani_thorough': ['k_npy_decode_partial_value_is_error', 'k_npy_decode_chunked_reader', 'k_npy_header_write_short_writes'],
         'assumptions': ['writer: for every sink obeying the write_all contract the bytes are the same sequence however many the sink accepts per call, and Ok is returned only if no write failed (V-npyhdr, unbounded)',
                         'reader: read_exact / fill_buf of std are assumed chunk-independent; the npy value loop is exercised on slices only'],
         'not_decided': ['VCF/BCF/BGZF streams (noodles, flate2)', 'text writer (writeln!/format!)', 'BGZF branch of format detection (gzip decoder over the first buffer)'],
@@ -253,7 +254,7 @@ REGISTRY = {
         'title': 'array, axis-view and iterator API invariants',
         'level': 'proof',
         'verus': ['v_axis', 'v_view', 'v_axisiter', 'v_indexsum'],
-        'verus_pairs': {'v_view': ['k_view_axis_views_2x3'], 'v_axisiter': ['k_view_axis_views_2x3', 'k_view_axis_iter_4'], 'v_axis': ['k_view_axis_views_2x1']},
+        'verus_pairs': {'v_view': ['k_view_axis_views_2x3x2'], 'v_axisiter': ['k_view_axis_views_2x3x2', 'k_view_axis_iter_4'], 'v_axis': ['k_view_axis_views_3']},
         'kani_quick': VIEW_QUICK + INDEX_QUICK,
         'kani_thorough': VIEW_THOROUGH + INDEX_THOROUGH,
         'assumptions': ['Array representation invariant (data length = product of shape, strides = suffix products) is a precondition of the Verus contracts; it is established by Array::new/new_unchecked + Shape::strides, which use iterator adapters and are checked by Kani on the listed shapes',
